@@ -6,6 +6,8 @@ Gen/ServiceTbl.lean:
   LEGACY_SKIPS_DUPLICATE       EvalFunc.trigger_init skips a service name that is already in `self.trigger_service`
   LEGACY_TRACKS_AFTER_REGISTER `self.trigger_service.add(srv_name)` comes after `Function.service_register(...)` in that loop
   SERVICE_KEY_LOWERCASED       service_register and service_remove both build `key = f"{domain}.{service}".lower()`
+  BUILTIN_TEST_FOLDS_CASE_LEGACY / _NEW   `if name.lower() in (SERVICE_RELOAD, SERVICE_JUPYTER_KERNEL_START)` in trigger_init /
+                               `if self.args[1].lower() in (...)` in ServiceDecorator.validate (before the fix: without .lower())
 """
 import ast
 
@@ -116,6 +118,20 @@ def gen_service_tbl():
         body.append("def SERVICE_KEY_LOWERCASED : Bool := false")
     else:
         broken.append(f"function.Function.service_register/service_remove: `key = ...` shape {keys}")
+    # the test that keeps @service off pyscript's own services: on the name as written or on the lower-cased name?
+    names = "(SERVICE_RELOAD, SERVICE_JUPYTER_KERNEL_START)"
+    const = (SRC / "const.py").read_text()
+    if 'SERVICE_JUPYTER_KERNEL_START = "jupyter_kernel_start"' not in const:
+        broken.append("const.SERVICE_JUPYTER_KERNEL_START is no longer 'jupyter_kernel_start'")
+    for label, tree, var in (("LEGACY", ti, "name"), ("NEW", find_func(dec, "validate", "ServiceDecorator"), "self.args[1]")):
+        tests = [] if tree is None else [ast.unparse(n.test) for n in ast.walk(tree) if isinstance(n, ast.If)
+                                        and names in ast.unparse(n.test)]
+        if tests == [f"{var}.lower() in {names}"]:
+            body.append(f"def BUILTIN_TEST_FOLDS_CASE_{label} : Bool := true")
+        elif tests == [f"{var} in {names}"]:
+            body.append(f"def BUILTIN_TEST_FOLDS_CASE_{label} : Bool := false")
+        else:
+            broken.append(f"@service built-in name test ({label.lower()}): unknown shape {tests}")
     emit("ServiceTbl", "\n".join(body))
 
 
